@@ -30,9 +30,9 @@ pub struct RichOpts {
     pub time: bool,
 }
 
-pub const ISSUER_KEYS: [(&str, &str); 12] = [("K1", "ES256"), ("KE1", "EdDSA"), ("S1", "HS256"), ("K1", "ES256"), ("KE1", "EdDSA"), ("S1", "HS256"),
+pub const ISSUER_KEYS: [(&str, &str); 13] = [("K1", "ES256"), ("KE1", "EdDSA"), ("S1", "HS256"), ("K1", "ES256"), ("KE1", "EdDSA"), ("S1", "HS256"),
     // every other algorithm jsonwebtoken offers for these key types (RSA signing is slow: one draw in four)
-    ("S1", "HS384"), ("S2", "HS512"), ("KP1", "ES384"), ("KR1", "RS256"), ("KR1", "PS256"), ("KR2", "RS512")];
+    ("S1", "HS384"), ("S2", "HS512"), ("KP1", "ES384"), ("KR1", "RS256"), ("KR1", "PS256"), ("KR2", "RS512"), ("KR4", "RS384")];
 pub const HOLDER_KEYS: [(&str, &str); 5] = [("H1", "ES256"), ("HE1", "EdDSA"), ("H1", "ES256"), ("HE1", "EdDSA"), ("HR1", "PS384")];
 
 fn select_everything(claims: &serde_json::Value) -> serde_json::Map<String, serde_json::Value> {
